@@ -72,3 +72,15 @@ Example C09_bech32_vectors :
      Some ("abcdef"%string, [0;1;2;3;4;5;6;7;8;9;10;11;12;13;14;15;16;17;18;19;20;21;22;23;24;25;26;27;28;29;30;31], 1)
   /\ b32_decode "A12UEL5l" = None.
 Proof. vm_compute. repeat split; reflexivity. Qed.
+
+(* across a re-configuration: after an accepted UpdateConfig that supplies both the native and the protocol section, the
+   only account whose ReceiveRewards / ReceiveUnstakedTokens can succeed is the one derived from the SUPPLIED channel and
+   the SUPPLIED collector / staker (dv is the derivation function; C09_derive_spec characterises the concrete one) *)
+Theorem C09_reconfigured_sender : forall va dv av s e i un up f m bp s1 r1 e2 i2 s2 r2,
+  execute va dv av s e i (UpdateConfig (Some un) (Some up) f m bp) = Ok (s1, r1) ->
+  (execute va dv av s1 e2 i2 ReceiveRewards = Ok (s2, r2) ->
+     dv (up_channel up) (un_collector un) (pc_prefix (protocol (cfg s1))) = Some (sender i2))
+  /\ (forall id, execute va dv av s1 e2 i2 (ReceiveUnstakedTokens id) = Ok (s2, r2) ->
+     dv (up_channel up) (un_staker un) (pc_prefix (protocol (cfg s1))) = Some (sender i2)).
+Proof. exact reconfigured_hook_sender. Qed.
+Print Assumptions C09_reconfigured_sender.
